@@ -33,6 +33,12 @@ def search_lines(rng, n=None):
         rng.shuffle(w); w = w[:n]
     return [(l, {'kind': 'search'}) for l in w]
 
+def corpus_lines():
+    """inputs on which earlier versions of the code (seeded changes, repaired defects) failed a check: they run in every run"""
+    p = os.path.join(os.path.dirname(os.path.dirname(os.path.abspath(__file__))), 'corpus', 'lines.txt')
+    if not os.path.exists(p): return []
+    return [(l.rstrip(b'\n'), {'kind': 'corpus'}) for l in open(p, 'rb') if l.strip()]
+
 def byte_lines(rng, base, n):
     return [(l, {'kind': 'bytes'}) for l in gen.bytes_mutations(rng, base, n)]
 
